@@ -105,6 +105,7 @@ type caseStats struct {
 	nearMiss   int
 	tokenValue bool
 	unknown    int
+	edited     int
 }
 
 func (c *ctx) token(dim string) string {
@@ -181,6 +182,26 @@ func (c *ctx) value(depth int, orderedMaps bool) any {
 			m := ordered.NewMap[string, any](n)
 			for i := 0; i < n; i++ {
 				m.Set(c.keyStr("mk", i), c.value(depth+1, orderedMaps))
+			}
+			if n >= 3 && rapid.IntRange(0, 2).Draw(c.t, "edited") == 0 {
+				// a mapping that was edited after it was built or parsed: an entry - one that named a dimension
+				// the job does not have - was removed again (or renamed away); it is not part of the step any more
+				gone := "zz-removed" + c.token(rapid.SampledFrom(c.unknownDims).Draw(c.t, "gonedim"))
+				m.Set(gone, c.token(rapid.SampledFrom(c.unknownDims).Draw(c.t, "gonedim2")))
+				if rapid.Bool().Draw(c.t, "renamedaway") {
+					first := ""
+					m.Range(func(k string, _ any) error {
+						if first == "" {
+							first = k
+						}
+						return nil
+					})
+					v, _ := m.Get(first)
+					m.Replace(gone, first, v) // lands on an existing key: the slot of `gone` stays, `first`'s is vacated
+				} else {
+					m.Delete(gone)
+				}
+				c.stats.edited++
 			}
 			return m
 		}
@@ -401,6 +422,9 @@ func TestPropMatrixInterpolation(t *testing.T) {
 		}
 		if st.tokenValue {
 			cls = append(cls, "token-shaped-value")
+		}
+		if st.edited > 0 {
+			cls = append(cls, "ordered-map-with-a-removed-entry")
 		}
 		rec.Case(ev.Hash(show()), nt, cls...)
 		rec.MaybeSample(nt, func() any {
